@@ -13,7 +13,9 @@ three record disciplines, dictionary, union) and all serde value kinds, at any n
   `i32::MAX`, dictionary keys beyond the key type).  `small_NoCap` gives the closed form
   `room b = min (2^31 - 1 - used b) (keysRoom b)`;
 * `total dt n md`: the explicit NON-capacity exclusion found by this proof (see `default_refused` below): a nullable
-  struct / fixed-size list must have children that support `serialize_default`, and unions have ≤ 128 variants;
+  struct / fixed-size list must have children that support `serialize_default` (a union: SOME variant is not an
+  `UnknownVariant` placeholder and the first such supports it — repo fix 837fa53, `default_first_real`; before the
+  fix it had to be variant 0), and unions have ≤ 128 variants;
 * the hypotheses of R2: `WFB`, `Safe`, `Shape`, `noRaw`.
 
 Corollaries: `push_err_iff`, `push_err_sound` (the error-position refinement C18 needs: an error is never spurious),
@@ -213,10 +215,14 @@ def exUnkDT : DataType := .struct (.cons (.mk "u" .null true [(STRATEGY_KEY, "Un
 def exUnk : B := .struct "$.s" 0 (some []) (.cons (.unknownVariant "$.s.u") ⟨"u", true, [(STRATEGY_KEY, "UnknownVariant")]⟩ .nil)
   [none] 0 [false]
 
-/-- **Finding** (`default_refused`): the documented mapping sends `None` at a nullable struct to `null`, but the
-builder refuses it when a child cannot take `serialize_default` (an `UnknownVariant` placeholder; likewise the first
-variant of a union, or a union without variants): `StructBuilder::serialize_none` calls `serialize_default` on every
-child, `UnknownVariantBuilder::serialize_default` fails.  Not a capacity condition: `total` is false exactly here. -/
+/-- **`total` is needed** (`default_refused`): the documented mapping sends `None` at a nullable struct to `null`, but
+the builder refuses it when a child cannot take `serialize_default` (an `UnknownVariant` placeholder standing directly
+below the struct, a union without variants or with placeholder variants only): `StructBuilder::serialize_none` calls
+`serialize_default` on every child, `UnknownVariantBuilder::serialize_default` fails.  Not a capacity condition:
+`total` is false exactly here.  Tracing never yields these schemas (placeholders are union children beside at
+least one seen variant); the case tracing DOES yield — a union whose variant 0 is a placeholder — was the defect
+`C06-unseen-first-variant-default`, repaired by repo fix 837fa53: see `default_first_real` /
+`default_variant0_pinned` below. -/
 theorem default_refused :
     newDT "$.s" exUnkDT true [] = .ok exUnk ∧ WFB exUnk ∧ Shape exUnk exUnkDT true [] ∧ NoCap {} exUnk .none ∧
     interpDT {} exUnkDT true [] .none = .ok .null ∧ (push {} exUnk .none).isOk = false ∧
@@ -230,5 +236,37 @@ theorem default_refused :
     | succ j => simp at hj
   · simp only [exUnk, exUnkDT, Shape]
     exact ⟨rfl, _, rfl, rfl, rfl, ⟨rfl, by decide⟩, trivial⟩
+
+/-! ### the repaired defect `C06-unseen-first-variant-default` (repo fix 837fa53) -/
+
+/-- `s: Struct{e: Union[0: A = Null [UnknownVariant], 1: B = Null]}?` — what tracing yields for an optional struct
+around an enum position of which only the SECOND variant was seen
+(`from_samples([Row{s: Some(S{e: E::B})}, Row{s: None}])`) -/
+def exUnionDT : DataType := .struct (.cons (.mk "e" (.union
+  (.cons 0 (.mk "A" .null true [(STRATEGY_KEY, "UnknownVariant")]) (.cons 1 (.mk "B" .null true []) .nil)) .dense) false []) .nil)
+
+def exUnionFs : BL :=
+  .cons (.unknownVariant "$.s.e.A") ⟨"A", true, [(STRATEGY_KEY, "UnknownVariant")]⟩ (.cons (.null "$.s.e.B" 0) ⟨"B", true, []⟩ .nil)
+
+def exUnion : B := .struct "$.s" 0 (some []) (.cons (.union "$.s.e" exUnionFs [] [] [0, 0]) ⟨"e", false, []⟩ .nil) [none] 0 [false]
+
+/-- **Repaired** (`UnionBuilder::serialize_default` uses the first variant that is not a placeholder): the schema is
+inside `total`, and the `None` the documented mapping sends to `null` is accepted — the placeholder row of the
+union goes to variant 1 (type id 1, dense offset 0). -/
+theorem default_first_real :
+    newDT "$.s" exUnionDT true [] = .ok exUnion ∧ total exUnionDT true [] = true ∧
+    interpDT {} exUnionDT true [] .none = .ok .null ∧
+    push {} exUnion .none = .ok (.struct "$.s" 1 (some [false]) (.cons (.union "$.s.e"
+      (.cons (.unknownVariant "$.s.e.A") ⟨"A", true, [(STRATEGY_KEY, "UnknownVariant")]⟩ (.cons (.null "$.s.e.B" 1) ⟨"B", true, []⟩ .nil))
+      [1] [0] [0, 1]) ⟨"e", false, []⟩ .nil) [none] 0 [false]) := by
+  refine ⟨by decide +kernel, by decide +kernel, by decide +kernel, by decide +kernel⟩
+
+/-- **Pinned** (the code before 837fa53 delegated to variant 0 whatever it was): on the same union the step into
+variant 0 fails — `to_marrow` rejected a collection the schema was traced from — while the step into the variant the
+repaired code chooses (`firstReal`) succeeds. -/
+theorem default_variant0_pinned :
+    (pushDefaultKAt exUnionFs 0 1).isOk = false ∧ firstReal exUnionFs = 1 ∧
+    (pushDefaultKAt exUnionFs (firstReal exUnionFs) 1).isOk = true := by
+  refine ⟨by decide +kernel, by decide +kernel, by decide +kernel⟩
 
 end SaModel.Props.C01
